@@ -30,6 +30,10 @@ META = dict(
                  'pooling with padding / dilation (not implemented by the library)'],
 )
 UNITS = [
+    # concrete-geometry bounded units: the real conv2d / pooling views end to end (float ops uninterpreted, mode fuf)
+    Unit('max_pool_3x3_ceil.bounded', 'c17k', 'verif_max_pool_3x3_ceil', mode='bp', plain=True, unwind=12, unwind_loops={'.': 12}, timeout=1800, object_bits=12,
+         bounded='input (1,1,3,3), kernel 2, stride 2, ceil mode; symbolic NaN-free floats; all loops unwound 12 times', waive=[r'arithmetic overflow on (signed to unsigned|unsigned to signed) type conversion'],
+         clause='max pooling with overhanging last windows: each output is the maximum of the part of the window inside the input'),
     Unit('shape_pool2d.bp', 'c17', 'verif_shape_pool2d', mode='bp', extra=['--sat-solver', 'cadical'], unwind=10, clause='pooling output shape, floor and ceil mode'),
     Unit('shape_pool2d_sv.bp', 'c17', 'verif_shape_pool2d_sv', mode='bp', extra=['--sat-solver', 'cadical'], unwind=10, clause='pooling output shape, floor and ceil mode (rank 2..8: leading axes kept)'),
     Unit('slice_pool2d.bp', 'c17', 'verif_slice_pool2d', mode='bp', extra=['--sat-solver', 'cadical'], unwind=10, unwind_loops={'slice_pool2d': 3}, clause='pooling window [o*s, min(o*s+k, n)) incl. the overhanging last window'),
